@@ -7,6 +7,10 @@
 //! API level: tables with such columns are written to a temp directory with a tiny `max_partition_size_bytes`,
 //! the database is dropped and reopened, every column and some absent names are SELECTed, and the files under
 //! `tables/` are compared with the paths the model derives from the catalogue.
+//! Read-state level (`reads`): on the reopened database a random sequence of `SELECT <col>` (stored and absent names,
+//! repeated, in any order) and `evict_cache()` calls; per query the answer (stored values / all NULL) and
+//! `QueryStats.files_opened` are compared with the Lean read-side machine (`Disk/ReadState.lean`: handles, `empty`
+//! markers, `loaded` flags) started on the catalogue and the column lists of the files actually on disk.
 use std::collections::{BTreeMap, BTreeSet, HashMap};
 use std::path::Path;
 use std::sync::Arc;
@@ -14,7 +18,7 @@ use vharness::locustdb::verif::mem_store::column_buffer::ColumnBuffer;
 use vharness::locustdb::verif::mem_store::Column;
 use vharness::locustdb::verif::{
     verif_is_filesystem_safe, verif_metastore_serialize, verif_partition_filename, verif_sanitize_table_name, verif_subpartition, BlobWriter,
-    FileBlobWriter, MetaStore, PartitionMetadata, VersionedChecksummedBlobWriter,
+    FileBlobWriter, MetaStore, PartitionMetadata, PartitionSegment, VersionedChecksummedBlobWriter,
 };
 use vharness::locustdb::{LocustDB, Options};
 use vharness::*;
@@ -427,6 +431,113 @@ fn api_level(rng: &mut Rng, cases: &mut Cases, thorough: bool) {
     }
 }
 
+/// `heap_size_of_children` of one 6-row column of the `reads` tables (all columns have the same shape).
+const COLSZ: u64 = 12;
+
+/// Read-state level: see the module comment.
+fn reads_level(rng: &mut Rng, cases: &mut Cases, thorough: bool) {
+    let s = |v: &[&str]| v.iter().map(|x| x.to_string()).collect::<Vec<String>>();
+    let long65 = "c".repeat(65);
+    let mut cfgs: Vec<(&'static str, String, Vec<String>, u64)> = vec![
+        ("one-per-file", "t".into(), s(&["a", "b", "c", "d", "e"]), 1),
+        ("one-file", "t".into(), s(&["a", "b", "c"]), u64::MAX),
+        ("pairs", "t".into(), s(&["a", "b", "c", "d", "e", "f", "g"]), 2 * COLSZ),
+        ("triples", "t".into(), s(&["a", "b", "c", "d", "e", "f", "g", "h"]), 3 * COLSZ),
+        ("case-pairs", "Tab".into(), s(&["x", "X", "xy", "Xy", "xY", "XY"]), 2 * COLSZ),
+        ("non-ascii", "tä".into(), s(&["é", "e", "ß", "日本", "zz", "Ω"]), 2 * COLSZ),
+        ("long", "t".into(), vec![long65.clone(), "c".repeat(64), "c".into(), "d".into()], 1),
+        ("prefixes", "t".into(), s(&["a", "ab", "abc", "abd", "b"]), 2 * COLSZ),
+        ("unsafe-chars", "a/b".into(), s(&["a b", "a/b", "..", "a.b", "-", "z"]), 2 * COLSZ),
+        // names that begin with a quote character (witness of the fixed parser defect: `strip_quotes` on an unquoted name)
+        ("quote-lead", "t".into(), s(&["a", "`ab", "`a`", "`", "b", "'x'"]), 2 * COLSZ),
+    ];
+    let nrand = if thorough { 40 } else { 6 };
+    for _ in 0..nrand {
+        let pool: [&str; 14] = ["a", "b", "c", "A", "B", "col1", "é", "x_y", "Zed", "m", "n", "long name", "q/r", "all"];
+        let k = 2 + rng.below(7) as usize;
+        let set: BTreeSet<String> = (0..k).map(|_| { let mut n = rng.pick(&pool[..]).to_string(); if rng.chance(1, 3) { n.push_str(*rng.pick(&pool[..])); } n }).collect();
+        cfgs.push(("random", rng.pick(&["t", "T", "my table", "x.y", ""][..]).to_string(), set.into_iter().collect(), *rng.pick(&[1u64, COLSZ, 2 * COLSZ, 3 * COLSZ, 5 * COLSZ, u64::MAX])));
+    }
+    for (class, table, cols, max) in cfgs {
+        let class = format!("reads:{}", class);
+        let dir = tempfile::tempdir().unwrap();
+        let opts = Options { max_partition_size_bytes: max, partition_combine_factor: 999, ..disk_options(dir.path()) };
+        let rows = 6usize;
+        let o2 = opts.clone();
+        let db = match with_deadline(30, move || Arc::new(LocustDB::new(&o2))) { Some(Ok(db)) => db, _ => { cases.push(&class, "echo open", "open-failed", ""); continue; } };
+        let mut expected: BTreeMap<String, Vec<Cell>> = BTreeMap::new();
+        let bcols: Vec<(String, ColRep)> = cols.iter().enumerate().map(|(ci, c)| {
+            let vals: Vec<i64> = (0..rows).map(|r| (ci as i64 + 1) * 1000 + r as i64).collect();
+            expected.insert(c.clone(), vals.iter().map(|v| Cell::Int(*v)).collect());
+            (c.clone(), ColRep::I64(vals))
+        }).collect();
+        let batches = vec![Batch { table: table.clone(), len: rows as u64, cols: bcols }];
+        let db2 = db.clone();
+        let written = with_deadline(30, move || { ingest(&db2, &batches); db2.force_flush(); });
+        drop(db);
+        if !matches!(written, Some(Ok(()))) { cases.push(&class, "echo written", "write-failed", &format!("{:?}", written)); continue; }
+        // catalogue + the column names each file really holds
+        let w = VersionedChecksummedBlobWriter::new(Box::new(FileBlobWriter::new()));
+        let ms = match w.load(&dir.path().join("meta")).ok().and_then(|d| MetaStore::deserialize(&d).ok()) {
+            Some(ms) => ms, None => { cases.push(&class, "echo catalogue-readable", "catalogue-unreadable", ""); continue; } };
+        let parts: Vec<PartitionMetadata> = ms.partitions().filter(|p| p.tablename == table).cloned().collect();
+        if parts.len() != 1 { cases.push(&class, "echo one-partition", &format!("{}-partitions", parts.len()), ""); continue; }
+        let pm = &parts[0];
+        let mut files_tok = vec![];
+        let mut unreadable = false;
+        for sp in &pm.subpartitions {
+            let path = dir.path().join("tables").join(verif_sanitize_table_name(&table)).join(verif_partition_filename(pm.id, &sp.subpartition_key));
+            match w.load(&path).ok().and_then(|d| PartitionSegment::deserialize(&d).ok()) {
+                Some(seg) => files_tok.push(format!("{}|{}|{}", ntok(&sp.subpartition_key), ntok(&sp.last_column), toks(&seg.columns, |c| ntok(c.name())))),
+                None => unreadable = true,
+            }
+        }
+        if unreadable { cases.push(&class, "echo files-readable", "file-unreadable", ""); continue; }
+        let mut pool: Vec<String> = queries(&cols).into_iter().filter(|q| !q.is_empty() && !q.contains('"') && !q.contains('\u{0}') && !q.contains('\n') && !q.contains('\t')).collect();
+        pool.sort(); pool.dedup();
+        let rounds = if thorough { 4 } else { 2 };
+        for round in 0..rounds {
+            // every round starts from a freshly reopened database (the model starts from `RState.init`)
+            let o3 = opts.clone();
+            let db = match with_deadline(30, move || Arc::new(LocustDB::new(&o3))) { Some(Ok(db)) => db, other => { cases.push(&class, "echo reopened", if other.is_none() { "hang" } else { "panic" }, ""); continue; } };
+            let nops = 10 + rng.below(14) as usize;
+            let mut ops = vec![];
+            let mut outs = vec![];
+            let mut notes = vec![];
+            for _ in 0..nops {
+                if rng.chance(1, 7) {
+                    db.evict_cache();
+                    ops.push("E".to_string()); outs.push("E".to_string());
+                    continue;
+                }
+                let name = if rng.chance(1, 2) { rng.pick(&cols[..]).clone() } else { rng.pick(&pool[..]).clone() };
+                let sql = format!("SELECT {} FROM {}", quote_ident(&name), quote_ident(&table));
+                let db2 = db.clone(); let sql2 = sql.clone();
+                let res = with_deadline(20, move || futures::executor::block_on(db2.run_query(&sql2, false, true, vec![])));
+                let out = match res {
+                    None => "hang".to_string(),
+                    Some(Err(_)) => "panic".to_string(),
+                    Some(Ok(Err(e))) => format!("err:{}", err_kind(&e)),
+                    Some(Ok(Ok(o))) => {
+                        let mut got: Vec<Cell> = o.rows.as_ref().map(|rs| rs.iter().map(|r| r.get(0).map(Cell::from_value).unwrap_or(Cell::Null)).collect()).unwrap_or_default();
+                        got.sort();
+                        let kind = if got.len() == rows && got.iter().all(|c| *c == Cell::Null) { "a" }
+                            else if expected.get(&name).map(|e| { let mut e = e.clone(); e.sort(); e == got }).unwrap_or(false) { "f" } else { "x" };
+                        format!("{}{}", kind, o.stats.files_opened)
+                    }
+                };
+                ops.push(format!("g{}", ntok(&name))); outs.push(out); notes.push(sql.replace(['\t', '\n'], " "));
+            }
+            let out = outs.join(",");
+            let files = if files_tok.is_empty() { "[]".to_string() } else { files_tok.join(";") };
+            cases.push(&format!("{}:{}", class, if pm.subpartitions.len() == 1 { "one-file" } else { "several-files" }),
+                &format!("reads {} {} {} {} :: {}", pm.id, files, ntoks(&cols), ops.join(","), out), &out,
+                &format!("round {} table {:?} file sizes {:?}", round, table, pm.subpartitions.iter().map(|sp| sp.size_bytes).collect::<Vec<_>>()));
+            drop(db);
+        }
+    }
+}
+
 /// Probe: table "" (files directly under tables/) next to a table whose directory name equals one of those file names.
 fn probe_empty_table() {
     let dir = tempfile::tempdir().unwrap();
@@ -488,5 +599,6 @@ fn main() {
     if only.as_deref().map_or(true, |o| o == "hook") { hook_level(&mut rng, &mut cases, args.thorough()); }
     if only.as_deref().map_or(true, |o| o == "names") { names_level(&mut cases, args.thorough()); }
     if only.as_deref().map_or(true, |o| o == "api") { api_level(&mut rng, &mut cases, args.thorough()); }
+    if only.as_deref().map_or(true, |o| o == "reads") { reads_level(&mut rng, &mut cases, args.thorough()); }
     cases.finish();
 }
